@@ -462,8 +462,10 @@ func c04R4(c *kit.Ctx, m *storeModel, r4 *kit.Rule) {
 		c.Fatalf("R4: cannot determine the parent-id parameter of %s from INSERT INTO edges", f.Name)
 	}
 	st := &kit.Std{F: f}
+	// setters and small helpers are followed (the cached root id may be set through one)
+	st.ShouldInline = func(cf *kit.Func, call *ast.CallExpr) bool { return txParamOf(cf) == nil }
 	st.Eval.Atom = func(e ast.Expr) (string, bool, bool) {
-		isP := func(x ast.Expr) bool { return kit.ObjOf(info, x) == parent }
+		isP := func(x ast.Expr) bool { return st.ObjOf(x) == types.Object(parent) }
 		if neg, ok := eqAtom(e, isP, constStringIs(info, "root")); ok {
 			return "proot", neg, true
 		}
@@ -499,8 +501,8 @@ func c04R4(c *kit.Ctx, m *storeModel, r4 *kit.Rule) {
 		if as, ok := n.(*ast.AssignStmt); ok && m.rootField != nil {
 			for i, l := range as.Lhs {
 				if sel, ok := ast.Unparen(l).(*ast.SelectorExpr); ok && kit.ObjOf(info, sel) == types.Object(m.rootField) {
-					if metaArg != nil && i < len(as.Rhs) && !kit.SameExpr(info, as.Rhs[i], metaArg) {
-						cacheBad = "the cached root id is set to `" + f.Str(as.Rhs[i]) + "` while the store records `" + f.Str(metaArg) + "`"
+					if metaArg != nil && i < len(as.Rhs) && !kit.SameExpr(info, st.Resolve(as.Rhs[i]), metaArg) {
+						cacheBad = "the cached root id is set to `" + f.Str(st.Resolve(as.Rhs[i])) + "` while the store records `" + f.Str(metaArg) + "`"
 					}
 					s = s.Set("cached", "1")
 				}
